@@ -23,7 +23,7 @@ import numpy as np
 ID = "C20"
 TITLE = "channel distance measures equal their definitions and known closed forms"
 LEVEL = "exploration"
-BUDGET = {"quick": 80, "thorough": 900}
+BUDGET = {"quick": 90, "thorough": 900}
 ENGINES = ["E4-rtc"]
 TECHNIQUE = "run-time-checked contracts on the real functions over a bounded domain (bounded stand-in)"
 LEVEL_TEXT = (
